@@ -96,6 +96,62 @@ theorem perm_no_preRemoval_when_conditional (nOpts : List Nat) :
     | succ m ih => simpa [List.replicate_succ] using ih
   simp [preRemoved, preRemovedP, h]
 
+/-! #### The four relations in standard vocabulary, and their hierarchy -/
+
+private theorem pairwiseB_iff {α} (r : α → α → Bool) (l : List α) :
+    pairwiseB r l = true ↔ l.Pairwise (fun a b => r a b = true) := by
+  induction l with
+  | nil => simp [pairwiseB]
+  | cons x xs ih => simp [pairwiseB, ih, List.all_eq_true]
+
+/-- The documented relations in standard vocabulary: a permutation constraint means the active
+    choices take pairwise distinct option indices (no option twice) … -/
+theorem permutation_iff_nodup (v : List Nat) : consRel .permutation v = true ↔ v.Nodup := by
+  simp only [consRel, pairwiseB_iff, List.Nodup, bne_iff_ne]
+
+/-- … a linked constraint that they all take the same index … -/
+theorem linked_iff_all_equal (v : List Nat) :
+    consRel .linked v = true ↔ ∀ a ∈ v, ∀ b ∈ v, a = b := by
+  simp only [consRel, pairwiseB_iff, beq_iff_eq]
+  constructor
+  · intro h a ha b hb
+    induction v with
+    | nil => cases ha
+    | cons x xs ih =>
+      rw [List.pairwise_cons] at h
+      rcases List.mem_cons.1 ha with rfl | ha' <;> rcases List.mem_cons.1 hb with rfl | hb'
+      · rfl
+      · exact h.1 b hb'
+      · exact (h.1 a ha').symm
+      · exact ih h.2 ha' hb'
+  · intro h
+    induction v with
+    | nil => exact List.Pairwise.nil
+    | cons x xs ih =>
+      refine List.pairwise_cons.2 ⟨fun b hb => h x List.mem_cons_self b (List.mem_cons_of_mem _ hb), ?_⟩
+      exact ih (fun a ha b hb => h a (List.mem_cons_of_mem _ ha) b (List.mem_cons_of_mem _ hb))
+
+/-- … an unordered combination that the indices are non-decreasing in constraint order, and an
+    unordered non-replacing combination that they are strictly increasing. -/
+theorem unordered_iff_sorted (v : List Nat) :
+    (consRel .unordered v = true ↔ v.Pairwise (· ≤ ·)) ∧
+    (consRel .unorderedNorepl v = true ↔ v.Pairwise (· < ·)) := by
+  constructor <;> simp only [consRel, pairwiseB_iff, decide_eq_true_eq]
+
+/-- Hierarchy of the constraint types: strictly increasing indices satisfy both the permutation and
+    the unordered relation; linked indices are an unordered combination. -/
+theorem norepl_implies_perm_and_unordered (v : List Nat) (h : consRel .unorderedNorepl v = true) :
+    consRel .permutation v = true ∧ consRel .unordered v = true := by
+  rw [(unordered_iff_sorted v).2] at h
+  refine ⟨(permutation_iff_nodup v).2 ?_, (unordered_iff_sorted v).1.2 ?_⟩
+  · exact h.imp (fun hab => Nat.ne_of_lt hab)
+  · exact h.imp (fun hab => Nat.le_of_lt hab)
+
+theorem linked_implies_unordered (v : List Nat) (h : consRel .linked v = true) :
+    consRel .unordered v = true := by
+  simp only [consRel, pairwiseB_iff, beq_iff_eq, decide_eq_true_eq] at h ⊢
+  exact h.imp (fun hab => Nat.le_of_eq hab)
+
 /-! Non-vacuity / concrete instances -/
 example : validIdxRow .linked false [some 1, none, some 1] = true := by decide
 example : validIdxRow .permutation false [some 1, some 2, some 1] = false := by decide
